@@ -48,16 +48,37 @@ def main():
     behs = gen.json_lines()
     if len(behs) < 100:
         raise MachineryError(f"Quantifier_gen produced only {len(behs)} behaviours")
-    forms = ["entity", "setof", "nocond", "two"]
+    forms = ["entity", "setof", "nocond", "two", "falsy"]
     cases = []
     for b in behs:
         for form in forms:
             c = dict(b)
             c["form"] = form
             cases.append(c)
+    # two live evaluations of one quantified query object, every interleaving (QuantifierPair.tla)
+    ctx.run_tlc("QuantifierPair", "QuantifierPair_mc.cfg", expect="ok")
+    ctx.run_tlc("QuantifierPair", "QuantifierPair_sw_SharedCounter.cfg", expect="violation")
+    pairs = ctx.run_tlc("QuantifierPair", "QuantifierPair_gen.cfg", expect="ok").json_lines()
+    if len(pairs) < 1000:
+        raise MachineryError(f"QuantifierPair_gen produced only {len(pairs)} schedules")
+    if not thorough:
+        import random
+        pairs.sort(key=lambda b: repr(b))
+        pairs = random.Random(ctx.seed).sample(pairs, 1500)
+    for b in pairs:
+        c = dict(b)
+        c["form"] = "pair"
+        cases.append(c)
     results = replay("c09", cases)
     ctx.replayed = len(cases)
     for c, r in zip(cases, results):
+        if c["form"] == "pair":
+            key = ["pair", c["kind"], c["lo"], c["hi"], c["n"], [(e["i"], e["o"]) for e in c["h"]]]
+            ctx.case(key, True, sample={"case": key[:5], "schedule": c["h"], "observed": r["obs"]})
+            if r["obs"] != c["h"]:
+                ctx.violation({"case": c, "expected": c["h"], "observed": r["obs"]},
+                              note="interleaved evaluations of one quantified query: an iterator's observations differ from Expected")
+            continue
         exp = c["the"] if c["kind"] == "the" else c["h"]
         key = [c["kind"], c["lo"], c["hi"], c["n"], c["form"]]
         nontrivial = not (len(c["h"]) == 1 and c["h"][0].endswith("Error"))
